@@ -17,7 +17,7 @@ ENV = dict(os.environ, CARGO_NET_OFFLINE="true", CARGO_TARGET_DIR=TARGET)
 TRUSTED_BASE = [
     "Coq 8.16.1 kernel incl. vm_compute (no native_compute); no axioms: every property theorem is 'Closed under the global context' (checked by Print Assumptions on this run)",
     "hand-written Gallina model of src/{codec,frame,service,client,server,slave}; tokio-util FramedImpl, futures-util send, std from_str_radix modelled by hand (modelled, not verified)",
-    "tools/translate.py (strict regex translator of the table-like Rust code -- function/exception code tables, RTU length tables, PDU size tables, constants -- into Gallina data, regenerated on every run; its obligations gen/Ob*.v are re-proved each run; a piece it cannot parse is skipped and reported in coverage.source_translation.skipped)",
+    "tools/translate.py (strict regex translator of the table-like and straight-line Rust code -- function/exception code tables, RTU length tables, PDU size tables, constants, the PDU encoders and decoders as put / read programs, the four frame encoders, the typed client methods, the blocking client's methods -- into Gallina data, regenerated on every run; its obligations gen/Ob*.v are re-proved each run; a piece it cannot parse is skipped and reported in coverage.source_translation.skipped)",
     "correspondence check: Rust harness (scripted transport, panic capture, printers), OCaml driver, Python generators/oracles",
     "Coq extraction with ExtrOcamlBasic only (bool/option/unit/list/prod/sumbool directives); cross-checked by in-kernel vm_compute on a sample each run; OCaml 4.13.1",
     "rustc/cargo, the safety of safe Rust; tokio runtime, sockets, ptys, timers, allocator are not modelled",
